@@ -11,6 +11,7 @@
 -/
 import Aqv.Lemmas.VmMain
 import Aqv.Lemmas.VmMemAccess
+import Aqv.Lemmas.Translated.VmNat
 namespace Aqv.Props.C07
 open Aqv.Vm Aqv.Gen.VmFlags
 
@@ -39,34 +40,44 @@ theorem memory_resizing_ops_charge_memory :
 
 example : ∃ f ∈ table .byzantium, f.memFn ≠ .none ∧ f.op = 0x3e := by decide
 
-/-- part of `no_modelled_panic_partial`: the memory-size functions, the gas functions and the bodies of the execute functions
-    (pop / peek / dup / swap depth, transcribed in `execReads`) access the stack only below the height validateStack
-    guarantees (`pops`), so `st.data[st.len()-n-1]` and `pop()` are in range for every opcode of every instruction set -/
+/-- `stack_reads_within_validated_height`: in every instruction set, the stack height an opcode's memory-size function, gas
+    function and execute function need on entry — GENERATED from the source of core/vm by a go/ssa pass (go/extract/cmd/vmaccess:
+    pops, peeks, Back(n), dup(n), swap(n), stack.data[len-k] on every path; closures instantiated with the constant arguments
+    of their maker; makeLog's counted loop) — is at most the height validateStack guarantees (`pops`, probed from the compiled
+    table). So `st.data[len-1-n]`, `pop()` and `peek()` never index out of range. -/
 theorem stack_reads_within_validated_height :
-    ∀ ep : Epoch, ∀ f ∈ table ep, memFnReads f.memFn ≤ f.pops ∧ gasFnReads f.gasFn ≤ f.pops ∧ execReads f ≤ f.pops := by
+    ∀ ep : Epoch, ∀ f ∈ table ep, f.memReads ≤ f.pops ∧ f.gasReads ≤ f.pops ∧ f.execReads ≤ f.pops := by
   intro ep f hf
   have h := opOK_split (List.all_eq_true.mp (table_ok ep) f hf)
   have h6 := h.2.2.2.2.2.1
-  have h8 := h.2.2.2.2.2.2.2
+  have h8 := h.2.2.2.2.2.2.2.1
   simp only [Bool.and_eq_true, decide_eq_true_eq] at h6
   exact ⟨h6.1, h6.2, h8⟩
 
+-- CALL needs 7 / 7 / 3 (execute / memory-size / gas function), LOG4 needs 6, SWAP16 needs 17: exactly their arities
 set_option maxRecDepth 4096 in
-example : ∃ f ∈ table .homestead, memFnReads f.memFn = 7 ∧ f.pops = 7 := by decide
+example : (table .spring).any (fun f => f.op == 0xf1 && f.execReads == 7 && f.memReads == 7 && f.gasReads == 3 && f.pops == 7) = true := by decide
+set_option maxRecDepth 4096 in
+example : (table .spring).any (fun f => f.op == 0xa4 && f.execReads == 6 && f.pops == 6) = true := by decide
+set_option maxRecDepth 4096 in
+example : (table .spring).any (fun f => f.op == 0x9f && f.execReads == 17 && f.pops == 17) = true := by decide
 
-/-- `mem_access_in_bounds_partial` (part of "no modelled panic"): in every instruction set, for every operand values, each
-    memory range `(offset, length)` with length > 0 that the body of an execute function dereferences (memory.Get / GetPtr /
-    Set / store[off]; ranges transcribed from instructions.go in `execMemRanges`) ends at or below the size computed by the
-    opcode's memorySize function — to which Run has resized the memory (after charging for it) before `execute` runs.
-    PARTIAL: the ranges are a hand transcription of the execute bodies, not extracted from the code; the harness' recover()
-    on the real code remains the check for the bodies themselves. -/
-theorem mem_access_in_bounds_partial (ep : Epoch) (f : OpF) (hf : f ∈ table ep) (args : List Nat) (memorySize : Nat)
+/-- `mem_access_in_bounds`: in every instruction set, for every operand values, each memory range `(offset, length)` with
+    length > 0 that the execute function of an opcode dereferences — GENERATED from the source by vmaccess: every call of
+    memory.Get / GetPtr / Set and every element access memory.store[i], with offset and size expressed in the entry stack
+    operands — ends at or below the size computed by the opcode's memorySize function, to which Run has resized the memory
+    (after charging for it) before `execute` runs. -/
+theorem mem_access_in_bounds (ep : Epoch) (f : OpF) (hf : f ∈ table ep) (args : List Nat) (memorySize : Nat)
     (hms : memorySizeOf (memReq f.memFn args) = .ok memorySize) :
-    ∀ r ∈ execMemRanges f args, 0 < r.2 → r.1 + r.2 ≤ memorySize :=
+    ∀ r ∈ f.execRanges, 0 < r.2.eval args → r.1.eval args + r.2.eval args ≤ memorySize :=
   exec_ranges_covered hf args memorySize hms
 
--- CALL with input [0x40, 0x40+0x20) and output [0x100, 0x100+0x40): memorySize = 0x140 covers both
+-- CALL with input [0x40, 0x40+0x20) and output [0x100, 0x100+0x40): memorySize = 0x140 covers both generated ranges
 example : memorySizeOf (memReq .memoryCall [0, 0, 0, 0x40, 0x20, 0x100, 0x40]) = .ok 0x140 := rfl
+set_option maxRecDepth 4096 in
+example : (table .spring).any (fun f => f.op == 0xf1 && f.execRanges == [(.back 3 0, .back 4 0), (.back 5 0, .back 6 0)]) = true := by decide
+set_option maxRecDepth 4096 in
+example : (table .spring).any (fun f => f.op == 0x53 && f.execRanges == [(.back 0 0, .const 1)]) = true := by decide
 
 instance (env : Env) : Decidable (EnvOK env) := by unfold EnvOK; infer_instance
 
@@ -331,12 +342,9 @@ example : ((topCall envSpring (oStore 0x00) 30001 .call 30000 false db0).trace.m
 
 /-! ## no modelled panic -/
 
-/-- `no_modelled_panic_partial`: the explicit partial Go operation of the modelled wrappers — RevertToSnapshot, which
-    panics on an unknown revision id — is always applied to a live id, for every program and nesting. PARTIAL: together with
-    `stack_reads_within_validated_height` this covers the partial expressions of Run, the gas/memory-size functions and the
-    wrappers; the bodies of the `op*` execute functions (memory slices, big.Int conversions) are NOT modelled here — for them
-    the harness' recover() on the real code is the only check. -/
-theorem no_modelled_panic_partial (env : Env) (hE : EnvOK env) (o : Nat → StepIn W) (fuel : Nat) (k : CallKind) (i : StepIn W)
+/-- `no_modelled_panic` (revision ids): RevertToSnapshot — which panics on an unknown revision id — is always applied to a live
+    id by the five wrappers, for every program and nesting. -/
+theorem no_modelled_panic (env : Env) (hE : EnvOK env) (o : Nat → StepIn W) (fuel : Nat) (k : CallKind) (i : StepIn W)
     (depth : Nat) (ro : Bool) (gas : Nat) (valueNZ : Bool) (db : Db W) (t : Nat) (hw : db.WF) (hg : gas < two64) :
     (callWrap env (run env o fuel) k i depth ro gas valueNZ db t).out ≠ .panic ∧
     (createWrap env (run env o fuel) i depth ro gas db t).out ≠ .panic :=
@@ -345,5 +353,83 @@ theorem no_modelled_panic_partial (env : Env) (hE : EnvOK env) (o : Nat → Step
 
 -- the panic outcome is reachable in the model when the discipline is broken: reverting to an id that was never issued
 example : (finishCall (⟨.fail .outOfGas, 5, db0, 0, 0, []⟩ : Res Nat) 7).out = .panic := by decide
+
+/-- `no_modelled_panic` (stack and memory accesses): whenever an iteration of Run gets past validateStack, the restrictions,
+    the memory-size computation and UseGas (`pre … = .go`), in any frame of any program: every stack access of the
+    memory-size function, the gas function and the execute function stays within the current stack, and every memory range
+    the execute function dereferences (length > 0) lies inside the memory as resized by Run. Depths and ranges are the
+    generated ones (derived from the source of core/vm on every run), so no hand transcription is involved. -/
+theorem no_modelled_panic_stack_memory (env : Env) (i : StepIn W) (fr : Frame) (db : Db W) (t : Nat)
+    (f : OpF) (g : GasOut) (memorySize : Nat) (db1 : Db W) (hpre : pre env i fr db t = .go f g memorySize db1) :
+    f.memReads ≤ fr.stack ∧ f.gasReads ≤ fr.stack ∧ f.execReads ≤ fr.stack ∧
+    ∀ r ∈ f.execRanges, 0 < r.2.eval i.args → r.1.eval i.args + r.2.eval i.args ≤ (paidFrame fr f g memorySize).mem.len := by
+  obtain ⟨hl, hst, _, hms, _, _, _⟩ := pre_go hpre
+  obtain ⟨h1, h2, h3⟩ := stack_reads_within_validated_height env.ep f (lookup_mem hl).1
+  refine ⟨by omega, by omega, by omega, fun r hr hpos => ?_⟩
+  have hcov := exec_ranges_covered (lookup_mem hl).1 i.args memorySize hms r hr hpos
+  have hlen : memorySize ≤ (paidFrame fr f g memorySize).mem.len := by
+    simp only [paidFrame]
+    split <;> omega
+  omega
+
+/-- `mem_operand_conversions_exact_partial`: the big.Int → int64/uint64 conversions of the operands that feed the generated
+    memory ranges are exact whenever the range is dereferenced (length > 0): offset + length ≤ memorySize ≤ 0xffffffffe0 < 2^63,
+    because every opcode with a memory-size function has a gas function that went through memoryGasCost.
+    PARTIAL: only these operands. Other conversions and slice expressions in the execute bodies (pos.Uint64() in opJump,
+    getDataBig's slices, common.RightPadBytes(…, int(size)), return-data slicing, the precompiles) are not derived; for them
+    the harness' recover() on the real code is the only check. -/
+theorem mem_operand_conversions_exact_partial (env : Env) (i : StepIn W) (fr : Frame) (db : Db W) (t : Nat)
+    (f : OpF) (g : GasOut) (memorySize : Nat) (db1 : Db W) (hpre : pre env i fr db t = .go f g memorySize db1) :
+    ∀ r ∈ f.execRanges, 0 < r.2.eval i.args → r.1.eval i.args + r.2.eval i.args ≤ 0xffffffffe0 := by
+  obtain ⟨hl, _, _, hms, hg, _, _⟩ := pre_go hpre
+  intro r hr hpos
+  have hcov := exec_ranges_covered (lookup_mem hl).1 i.args memorySize hms r hr hpos
+  have hne : f.memFn ≠ .none := by
+    intro h
+    rw [h] at hms
+    have : memorySize = 0 := by simp [memReq, memorySizeOf] at hms; omega
+    omega
+  have hch := memory_resizing_ops_charge_memory env.ep f (lookup_mem hl).1 hne
+  obtain ⟨fee, hmg, _⟩ := (gasCost_spec hg).2.1 hch
+  have := memoryGasCost_some_bound hmg
+  omega
+
+-- MSTORE at offset 0x40 in a fresh frame passes `pre` with memorySize 0x60: the hypotheses of the two theorems above hold
+example : ∃ f g db1, pre envSpring (⟨0x52, [0x40, 7], 2, true, false, false, id, false, id, true, none, false, false, 0, id, id, id, false, id⟩ : StepIn Nat)
+    ⟨1000, 2, ⟨0, 0⟩, 1000, 1, false⟩ db0 0 = .go f g 0x60 db1 ∧ f.execRanges = [(.back 0 0, .const 32)] ∧
+    (paidFrame ⟨1000, 2, ⟨0, 0⟩, 1000, 1, false⟩ f g 0x60).mem.len = 0x60 := by
+  refine ⟨_, _, _, rfl, rfl, rfl⟩
+
+/-! ### tie by translation (T-gen `translated`, DESIGN 2.2 mini-translator)
+
+core/vm.toWordSize and core/vm.memoryGasCost are translated from the go/ssa form of the tree under test on every run
+(`Aqv.Gen.Translated`, UInt64 with Go's wrap-around); the theorems state that the translated code refines the `Nat` model the
+theorems above are stated on (proofs in `Aqv.Lemmas.Translated.VmNat`). -/
+
+/-- core/vm.toWordSize: for every uint64 the code computes the model's `toWordSize`. -/
+theorem toWordSize_code_is_model (size : UInt64) :
+    (Aqv.Gen.Translated.toWordSize size).toNat = toWordSize size.toNat :=
+  Aqv.Lemmas.Translated.toWordSize_translated_nat size
+
+example : (Aqv.Gen.Translated.toWordSize 0xffffffffffffffff).toNat = toWordSize 0xffffffffffffffff := by decide
+
+/-- core/vm.memoryGasCost (with `(*Memory).Len`; `mem.lastGasCost` threaded as an extra argument/result): the code computes
+    the model's `memoryGasCost` for every request of at most 0x1fffffffe0 bytes (2^32 − 1 words: the range in which the Go
+    code's `words * words` does not wrap; memory of that size costs more gas than any frame can hold). -/
+theorem memoryGasCost_code_refines_model (storeLen : Int64) (hs : 0 ≤ storeLen.toInt) (lastGasCost newMemSize : UInt64)
+    (hn : newMemSize.toNat ≤ 0x1fffffffe0) :
+    Aqv.Lemmas.Translated.memResNat storeLen.toInt.toNat (Aqv.Gen.Translated.memoryGasCost storeLen lastGasCost newMemSize)
+      = memoryGasCost ⟨storeLen.toInt.toNat, lastGasCost.toNat⟩ newMemSize.toNat :=
+  Aqv.Lemmas.Translated.memoryGasCost_translated_nat storeLen hs lastGasCost newMemSize hn
+
+example : Aqv.Lemmas.Translated.memResNat 0 (Aqv.Gen.Translated.memoryGasCost 0 0 64) = memoryGasCost ⟨0, 0⟩ 64 := by decide
+
+/-- the bound is sharp: at 2^37 bytes the Go code's square wraps to 0 (it charges 3·2^32) while the unbounded `Nat` model
+    charges 3·2^32 + 2^55 (recorded for C08 as evm-memgas-square-wraps-uint64; unreachable within any gas limit the model's
+    theorems consider, since both amounts exceed 2^33). -/
+theorem memoryGasCost_code_diverges_above_bound_witness :
+    Aqv.Lemmas.Translated.memResNat 0 (Aqv.Gen.Translated.memoryGasCost 0 0 0x2000000000) = some (12884901888, ⟨0, 12884901888⟩) ∧
+    memoryGasCost ⟨0, 0⟩ 0x2000000000 = some (36028809903865856, ⟨0, 36028809903865856⟩) :=
+  Aqv.Lemmas.Translated.memoryGasCost_nat_model_diverges_witness
 
 end Aqv.Props.C07
